@@ -257,6 +257,14 @@ pub trait RiRefBufImpl: Sized + RiRefImpl {
 	/// Set the scheme of the IRI reference.
 	#[inline]
 	fn set_scheme(&mut self, scheme: Option<&Scheme>) {
+		#[cfg(iref_verif)]
+		let span = crate::verif_trace::enter::<Self>(
+			"set_scheme",
+			false,
+			self.as_bytes(),
+			scheme.map(|s| s.as_bytes()),
+		);
+
 		match scheme {
 			Some(new_scheme) => match parse::find_scheme(self.as_bytes(), 0) {
 				Some(scheme_range) => unsafe {
@@ -285,6 +293,9 @@ pub trait RiRefBufImpl: Sized + RiRefImpl {
 				}
 			}
 		}
+
+		#[cfg(iref_verif)]
+		span.exit(self.as_bytes());
 	}
 
 	#[inline]
@@ -298,6 +309,14 @@ pub trait RiRefBufImpl: Sized + RiRefImpl {
 
 	#[inline]
 	fn set_authority(&mut self, authority: Option<&Self::Authority>) {
+		#[cfg(iref_verif)]
+		let span = crate::verif_trace::enter::<Self>(
+			"set_authority",
+			false,
+			self.as_bytes(),
+			authority.map(|a| a.as_bytes()),
+		);
+
 		let bytes = self.as_bytes();
 		match authority {
 			Some(new_authority) => match parse::find_authority(bytes, 0) {
@@ -347,6 +366,9 @@ pub trait RiRefBufImpl: Sized + RiRefImpl {
 				}
 			}
 		}
+
+		#[cfg(iref_verif)]
+		span.exit(self.as_bytes());
 	}
 
 	#[inline]
@@ -357,6 +379,14 @@ pub trait RiRefBufImpl: Sized + RiRefImpl {
 
 	#[inline]
 	fn set_path(&mut self, path: &Self::Path) {
+		#[cfg(iref_verif)]
+		let span = crate::verif_trace::enter::<Self>(
+			"set_path",
+			false,
+			self.as_bytes(),
+			Some(path.as_bytes()),
+		);
+
 		let range = parse::find_path(self.as_bytes(), 0);
 
 		let has_authority = self.authority().is_some();
@@ -401,10 +431,21 @@ pub trait RiRefBufImpl: Sized + RiRefImpl {
 				self.replace(range, path.as_bytes());
 			}
 		}
+
+		#[cfg(iref_verif)]
+		span.exit(self.as_bytes());
 	}
 
 	#[inline]
 	fn set_query(&mut self, query: Option<&Self::Query>) {
+		#[cfg(iref_verif)]
+		let span = crate::verif_trace::enter::<Self>(
+			"set_query",
+			false,
+			self.as_bytes(),
+			query.map(|q| q.as_bytes()),
+		);
+
 		match query {
 			Some(new_query) => match parse::find_query(self.as_bytes(), 0) {
 				Ok(range) => unsafe { self.replace(range, new_query.as_bytes()) },
@@ -425,10 +466,21 @@ pub trait RiRefBufImpl: Sized + RiRefImpl {
 				}
 			}
 		}
+
+		#[cfg(iref_verif)]
+		span.exit(self.as_bytes());
 	}
 
 	#[inline]
 	fn set_fragment(&mut self, fragment: Option<&Self::Fragment>) {
+		#[cfg(iref_verif)]
+		let span = crate::verif_trace::enter::<Self>(
+			"set_fragment",
+			false,
+			self.as_bytes(),
+			fragment.map(|f| f.as_bytes()),
+		);
+
 		match fragment {
 			Some(new_fragment) => match parse::find_fragment(self.as_bytes(), 0) {
 				Ok(range) => unsafe { self.replace(range, new_fragment.as_bytes()) },
@@ -449,6 +501,9 @@ pub trait RiRefBufImpl: Sized + RiRefImpl {
 				}
 			}
 		}
+
+		#[cfg(iref_verif)]
+		span.exit(self.as_bytes());
 	}
 
 	/// Resolve the URI/IRI reference.
@@ -457,6 +512,14 @@ pub trait RiRefBufImpl: Sized + RiRefImpl {
 	///
 	/// See <https://www.rfc-editor.org/errata/eid4547>
 	fn resolve(&mut self, base_iri: &Self::Ri) {
+		#[cfg(iref_verif)]
+		let span = crate::verif_trace::enter::<Self>(
+			"resolve",
+			false,
+			self.as_bytes(),
+			Some(base_iri.as_bytes()),
+		);
+
 		let parts = parse::reference_parts(self.as_bytes(), 0);
 
 		if parts.scheme.is_some() {
@@ -493,6 +556,9 @@ pub trait RiRefBufImpl: Sized + RiRefImpl {
 				self.set_path(path_buffer.path());
 			}
 		}
+
+		#[cfg(iref_verif)]
+		span.exit(self.as_bytes());
 	}
 
 	/// Removes the dot segments of the path (RFC 3986, section 5.2.4): unlike
